@@ -104,6 +104,19 @@ def check(prop: str, tier: str, seed: int, cap: int = 0) -> int:
         mc_stats.append({"module": inst["module"], "cfg": inst["cfg"], "generated": st["generated"],
                          "distinct": st["distinct"], "wall_s": st["wall_s"]})
 
+    # 1'. the design with a deviation switched on must exhibit the recorded finding --------------
+    dev_stats = []
+    for dv in spec.get("deviations", []):
+        st = tlc.model_check(dv["module"], dv["cfg"], workers=16, timeout=600,
+                             cfg_subst={"Dev <- NoDev": "Dev <- %s" % dv["dev"]})
+        if not st["violated"] or st["violated_invariant"] != dv["expect"]:
+            print("MACHINERY-FAILURE: design spec %s with %s should violate %s but TLC reported: %s\n%s"
+                  % (dv["module"], dv["dev"], dv["expect"], st["violated_invariant"] or "no violation",
+                     st["output_tail"][-1500:]))
+            return 2
+        dev_stats.append({"module": dv["module"], "dev": dv["dev"], "violates": dv["expect"],
+                          "distinct": st["distinct"], "wall_s": st["wall_s"]})
+
     # 2. stimuli -------------------------------------------------------------------------------
     scripts: List[Dict[str, Any]] = []
     for gen in spec["generators"]:
@@ -198,6 +211,7 @@ def check(prop: str, tier: str, seed: int, cap: int = 0) -> int:
                     "non-trivial = the server reacted (application started, bytes written or transport "
                     "closed) before the wind-down" % monitor,
             "design_model_checking": mc_stats,
+            "design_deviation_counterexamples": dev_stats,
             "stimulus_families": len(fams),
             "events_validated": sum(len(t) for t in traces),
             "known_findings_hit": sorted(known_hits),
